@@ -133,8 +133,18 @@ def array(x, dtype=None, *a, **k):
             return r.view(SymArray)
     r = _orig['array'](x, dtype, *a, **k)
     if isinstance(r, np.ndarray) and r.dtype == object and not isinstance(
-            r, SymArray) and r.size and any(
-            isinstance(e, SymReal) for e in r.flat):
+            r, SymArray) and r.size and (any(
+                isinstance(e, SymReal) for e in r.flat) or all(
+                isinstance(e, (float, np.floating)) for e in r.flat)):
+        # mixed concrete/symbolic (or an object array of plain floats that
+        # came out of symbolic-capable code): lift the concrete numbers so that the
+        # whole array follows IEEE-like semantics (e.g. x/0 -> non-finite
+        # instead of Python's ZeroDivisionError)
+        for idx in np.ndindex(*r.shape):
+            e = r[idx]
+            if isinstance(e, (float, int, np.floating, np.integer)) and \
+                    not isinstance(e, (bool, np.bool_)):
+                r[idx] = const(e)
         r = r.view(SymArray)
     return r
 
@@ -280,6 +290,11 @@ def _elementwise(name, f):
     def g(x, *a, **k):
         if isinstance(x, SymReal):
             return f(x)
+        if isinstance(x, (list, tuple)) and any(
+                isinstance(e, SymReal) for e in x):
+            arr = np.empty(len(x), dtype=object)
+            arr[:] = list(x)
+            x = arr
         if _symarr(x):
             out = np.empty(x.shape, dtype=object)
             for idx in np.ndindex(*x.shape):
@@ -376,6 +391,14 @@ def install():
     g = globals()
     for k in _NAMES:
         _orig[k] = getattr(np, k)
+    _orig['det'] = np.linalg.det
+
+    def det(a):
+        a = np.asarray(a)
+        if a.dtype == object and a.shape[-2:] == (2, 2):
+            return a[..., 0, 0] * a[..., 1, 1] - a[..., 0, 1] * a[..., 1, 0]
+        return _orig['det'](a)
+    np.linalg.det = det
     _orig['min'] = np.min
     _orig['max'] = np.max
     np.min = np.amin = amin
